@@ -706,11 +706,19 @@ void campaign(Ctx& ctx)
 	}
 }
 
+std::vector<Case> generate(Ctx& ctx, int n)
+{
+	std::vector<Case> out; rc::Random rnd(ctx.opt.seed * 7019 + 7); auto g = gen_case(40, false);
+	for (int i = 0; i < n; ++i) { rc::Random r = rnd.split(); out.push_back(g(r, 10 + (i % 50)).value()); }
+	return out;
+}
+
 } // namespace
 
 int main(int argc, char** argv)
 {
 	Harness h;
+	h.generate = generate;
 	h.name = "h_registry";
 	h.run_case = run_case;
 	h.campaign = campaign;
